@@ -123,11 +123,14 @@ def freeVarsKey (bound : List String) : Key → List String → List String
   | .spread e, _ => freeVars bound e
 end
 
-/-- the captured scope of a new lambda: every free name bound now, built-in names excluded -/
+/-- the captured scope of a new lambda: every free name bound now.  (A free name can be spelled
+    like a built-in only through the record shorthand `{sqrt}` — a plain identifier of that
+    spelling parses as the built-in —, and the shorthand reads the variable: it is captured like
+    any other name.) -/
 def captureScope (env : List Frame) (vars : List String) : Frame :=
   vars.foldl (fun sc x =>
     match envGet env x with
-    | some v => if isBuiltinIdent x then sc else insertAL x v sc
+    | some v => insertAL x v sc
     | none => sc) []
 
 /-! ### spreads -/
